@@ -220,6 +220,13 @@ func (sr *srcRenderer) simple(s any) string {
 		return fmt.Sprintf("r.E(%d, w[0], w[1], w[2], w[3], w[4])", num(m["id"]))
 	case "mut":
 		return sr.mutStmt(m)
+	case "pullit":
+		return fmt.Sprintf("if it.MoveNext() {\n\tr.E(%d, it.Current(), 0)\n} else {\n\tr.E(%d, -1, 0)\n}", num(m["id"]), num(m["id"]))
+	case "yfromit":
+		if sr.md == coMode {
+			return sr.api + "YieldFrom(it)"
+		}
+		return "rt.YF(yield, it)"
 	case "setp":
 		return "pscale_" + sr.fn + " = func(x int) int { return x * 100 }"
 	case "setcv":
@@ -268,7 +275,7 @@ func (sr *srcRenderer) stmt(s any, ind string) string {
 		return ind + sr.simple(s) + "\n" + ind + "_ = " + n + "\n"
 	case "def2":
 		return ind + sr.simple(s) + "\n" + ind + "_, _ = a, b\n"
-	case "eff", "inc", "callf", "passign", "panic", "yield", "yfrom", "setcv", "sets", "setp", "effkv", "effkk", "effw", "mut", "effx":
+	case "eff", "inc", "callf", "passign", "panic", "yield", "yfrom", "setcv", "sets", "setp", "effkv", "effkk", "effw", "mut", "effx", "pullit", "yfromit":
 		return indent(sr.simple(s), ind)
 	case "range":
 		return sr.rangeStmt(m, ind)
@@ -279,6 +286,13 @@ func (sr *srcRenderer) stmt(s any, ind string) string {
 		}
 		out := ind + "if " + hdr + " {\n" + sr.block(m["a"], in2) + ind + "}"
 		if b := arr(m["b"]); len(b) > 0 {
+			// an else branch that is exactly one if statement is written as an else-if chain for every
+			// second condition label (both spellings of the same program occur in the families)
+			if inner, ok := b[0].(map[string]any); ok && len(b) == 1 && inner["k"] == "if" && isNone(inner["init"]) && num(obj(m["c"])["id"])%2 == 0 {
+				chain := sr.stmt(b[0], ind)
+				out += " else " + strings.TrimPrefix(chain, ind)
+				return out
+			}
 			out += " else {\n" + sr.block(m["b"], in2) + ind + "}"
 		}
 		return out + "\n"
@@ -291,6 +305,17 @@ func (sr *srcRenderer) stmt(s any, ind string) string {
 			hdr = sr.cond(m["c"], m["init"])
 		case "type":
 			hdr = fmt.Sprintf("r.Any(%d).(type)", id)
+		case "typeb":
+			vars := ""
+			if !isNone(m["init"]) {
+				switch obj(m["init"])["k"] {
+				case "def":
+					vars = ", " + str(obj(m["init"])["n"])
+				case "def2":
+					vars = ", a, b"
+				}
+			}
+			hdr = fmt.Sprintf("tv := r.AnyA(%d%s).(type)", id, vars)
 		case "notag":
 			hdr = ""
 		}
@@ -311,8 +336,11 @@ func (sr *srcRenderer) stmt(s any, ind string) string {
 				b.WriteString(ind + "default:\n")
 			case form == "tag":
 				b.WriteString(ind + "case " + map[string]string{"t": "true", "f": "false"}[g] + ":\n")
-			case form == "type":
+			case form == "type" || form == "typeb":
 				b.WriteString(ind + "case " + map[string]string{"t": "int", "f": "string"}[g] + ":\n")
+				if form == "typeb" && g == "t" {
+					b.WriteString(in2 + fmt.Sprintf("r.E(%d, tv, 0)\n", id+1))
+				}
 			case form == "notag":
 				if g == "t" {
 					b.WriteString(ind + fmt.Sprintf("case r.T(%d):\n", id))
@@ -589,6 +617,9 @@ func (sr *srcRenderer) genFunc(name string, prog []any, trailing string) string 
 		prolog += rangeProlog
 	}
 	prolog += optProlog(prog, name)
+	if usesKind(prog, "pullit") || usesKind(prog, "yfromit") {
+		prolog += "\tit := D2(r, 3, b)\n\t_ = it\n"
+	}
 	tailDecl := pkgVars(prog, name)
 	uk := unsupKind(prog)
 	if uk == "rparr" || uk == "clo-rparr" {
